@@ -304,6 +304,9 @@ func (g *Gen) composition(s M, depth int) {
 	}
 	if r.Chance(300) {
 		s["type"] = pick(r, append(primTypes, "object", "array"))
+		if s["type"] == "string" && r.Chance(600) {
+			g.stringy(s, true) // string keywords and a format next to allOf/anyOf/oneOf/not: the members run first
+		}
 	}
 	if r.Chance(200) {
 		g.numeric(s)
@@ -633,6 +636,18 @@ func (g *Gen) TypedFor(s M, valid bool) *TypedVal {
 		return &TypedVal{T: "nil"}
 	}
 	t, _ := s["type"].(string)
+	if e, ok := s["enum"].([]any); ok && len(e) > 0 && r.Chance(500) {
+		// one of the allowed values (any of them, not only the first)
+		v := pick(r, e)
+		switch x := v.(type) {
+		case string:
+			return &TypedVal{T: "string", J: js(x)}
+		case bool:
+			return &TypedVal{T: "bool", J: js(x)}
+		case int:
+			return &TypedVal{T: pick(r, []string{"int", "int64", "int32", "float64"}), J: js(x)}
+		}
+	}
 	if !valid && r.Chance(200) {
 		t = pick(r, simpleTypes)
 	}
